@@ -136,6 +136,67 @@ Proof. exact env_nodup_lemma. Qed.
 Example env_nonvacuous : Inv ex_state /\ env_c_strings ex_state = [[97; 61; 51]%N].
 Proof. exact (conj ex_state_inv (proj2 (proj2 (proj2 (proj2 ex_state_facts))))). Qed.
 
+(* Array values are passed as their items joined with ':' (and the join loses
+   nothing when no item contains ':'). *)
+Theorem env_array_joined : forall s n v l,
+  Inv s -> get s n = Some v -> vval v = Some (Array l) -> vexp v = true ->
+  ~ In EQ n -> ~ In 0%N (n ++ EQ :: join_colon l) ->
+  In (n ++ EQ :: join_colon l) (env_c_strings s).
+Proof. exact env_array_lemma. Qed.
+
+Theorem join_colon_recovers_items : forall l,
+  l <> [] -> Forall (fun x => ~ In COLON x) l -> split_on COLON [] (join_colon l) = l.
+Proof. exact join_colon_split. Qed.
+
+Example env_array_nonvacuous :
+  Inv ex_array /\ env_c_strings ex_array = [[97; 61; 49; 58; 58; 50]%N].
+Proof. exact ex_array_facts. Qed.
+
+(* Script level: in every script of the command language, every environment an
+   executed program receives is the environment of a state that satisfies the
+   invariant, i.e. exactly the visible exported variables at that point ... *)
+Theorem script_env_is_exported_visible : forall names cs,
+  match run_script names cs with (t, _, _) => Forall (env_ok names) t end.
+Proof. exact script_env_lemma. Qed.
+
+(* ... and that state includes the temporary assignments of the command itself:
+   unless one of them fails (the shell exits), each is visible and exported
+   with the value assigned last, and every other name is as before. *)
+Theorem exec_env_has_temporaries : forall ov oe temps l s t e s',
+  Inv s -> irun vset step ov oe (compile (CExec temps) ++ l) s = (t, e, s') ->
+  (e = Exited /\ t = []) \/
+  exists s1 t', t = oe s1 :: t' /\ Inv s1 /\
+    (forall n v, last_temp n temps = Some v ->
+                 exists w, get s1 n = Some w /\ vval w = Some v /\ vexp w = true) /\
+    (forall n, last_temp n temps = None -> get s1 n = get s n).
+Proof. exact exec_env_lemma. Qed.
+
+Example exec_env_nonvacuous :
+  Inv ex_pre_state /\
+  exists t s', irun vset step (m_obs_vars [A; B]) (m_obs_env [A; B])
+                 (compile (CExec [(A, FIVE); (A, Scalar [54%N])]) ++ []) ex_pre_state = (t, Finished, s').
+Proof. exact (conj ex_pre_inv ex_exec_runs). Qed.
+
+(* The quirk (LINENO) is only a flag on the variable: setting it changes no
+   stored field, so every theorem above holds for quirk variables as well
+   ([inv_preserved], [abs_commutes], ... quantify over all mutations including
+   set_quirk); a quirk variable has no stored value and therefore never reaches
+   the environment. *)
+Theorem quirk_is_only_a_flag : forall v q,
+  let v' := fst (mutate v (MSetQuirk q)) in
+  vval v' = vval v /\ vloc v' = vloc v /\ vexp v' = vexp v /\ vro v' = vro v /\ vquirk v' = q.
+Proof. exact set_quirk_lemma. Qed.
+
+Theorem quirk_does_not_change_environment : forall n v q,
+  env_entry n (fst (mutate v (MSetQuirk q))) = env_entry n v.
+Proof. exact quirk_env_lemma. Qed.
+
+Example quirk_lineno :
+  Inv ex_lineno /\
+  (exists w, get ex_lineno LINENO = Some w /\ vval w = None /\ vquirk w = true /\ vexp w = true) /\
+  env_c_strings ex_lineno = [].
+Proof. exact ex_lineno_facts. Qed.
+
 (* ---- the caller rules: lifetimes of temporary assignments, locals, positional
    parameters ([compile] = yash-semantics simple_command*.rs; [irun] runs the
    compiled instructions; the observers [ov], [oe] are arbitrary) ---------------- *)
@@ -186,6 +247,22 @@ Example temp_assign_lifetime_function_nonvacuous :
   exists t s', irun vset step (m_obs_vars [A; B]) (m_obs_env [A; B])
                  (compile (CCall [(A, FIVE)] ex_body [[113%N]])) ex_pre_state = (t, Finished, s').
 Proof. exact (conj ex_pre_inv ex_call_runs). Qed.
+
+(* `return`: the rest of the body does not run and the call ends exactly like a
+   call whose body stops there -- so all the theorems about calls (contexts,
+   temporaries, locals, positional parameters popped at every level of
+   nesting) apply to functions left by `return`. *)
+Theorem return_ends_the_call : forall t pre post a,
+  cut_return pre = pre ->
+  compile (CCall t (pre ++ CReturn :: post) a) = compile (CCall t pre a).
+Proof. exact return_lemma. Qed.
+
+(* `for`: the variable is assigned in the enclosing scope (no context is
+   pushed) and keeps the last value after the loop. *)
+Theorem for_variable_persists : forall ov oe n vals v s t s',
+  irun vset step ov oe (compile (CFor n (vals ++ [v]) [])) s = (t, Finished, s') ->
+  ctxs s' = ctxs s /\ exists w, get s' n = Some w /\ vval w = Some (Scalar v).
+Proof. exact for_lemma. Qed.
 
 (* A global assigned inside a function persists after the return. *)
 Theorem globals_assigned_inside_persist : forall ov oe temps n v args s t s',
@@ -320,3 +397,11 @@ Print Assumptions reads_never_panic.
 Print Assumptions callers_never_panic.
 Print Assumptions readonly_refuses_unset.
 Print Assumptions readonly_refuses_assign.
+Print Assumptions env_array_joined.
+Print Assumptions join_colon_recovers_items.
+Print Assumptions script_env_is_exported_visible.
+Print Assumptions exec_env_has_temporaries.
+Print Assumptions quirk_is_only_a_flag.
+Print Assumptions quirk_does_not_change_environment.
+Print Assumptions return_ends_the_call.
+Print Assumptions for_variable_persists.
